@@ -120,6 +120,8 @@ func c17Apply(tx *bbolt.Tx, w c17Wop) error {
 
 var errC17Rollback = errors.New("c17: requested rollback")
 
+var c17ListenerWait = 3 * time.Second
+
 // ---- canonical dump -------------------------------------------------------------------------
 
 func c17Dump(entries []csEntry, ids map[string]string) string {
@@ -475,9 +477,12 @@ func (h *c17Run) opRestore(k int) {
 		return
 	}
 	// restore listeners run asynchronously: wait for the expected count, then a grace period for extras
-	deadline := time.Now().Add(5 * time.Second)
+	deadline := time.Now().Add(c17ListenerWait)
 	for atomic.LoadInt64(&h.fired) < want && time.Now().Before(deadline) {
 		time.Sleep(200 * time.Microsecond)
+	}
+	if atomic.LoadInt64(&h.fired) < want {
+		c17ListenerWait = 50 * time.Millisecond // already a finding; do not wait seconds for each later restore
 	}
 	time.Sleep(2 * time.Millisecond)
 	h.emit(caseTok, fmt.Sprintf("restore fired=%d", atomic.LoadInt64(&h.fired)))
